@@ -18,14 +18,15 @@ FULL STATEMENT (what the property asks of the routing tables):
         s ∈ born tables mode top (effLeaf tables top path) (leaf root path) →
         conforming top (routePath tables mode top root path s) = true
 
-It is FALSE on today's tree — `C03_routing_full_false` gives three concrete
-paths (they are the catalogued findings C03-inner-parser-argerr,
-C03-help-parser-exits and C03-default-config-argerr; the first two were read
-off the model and then reproduced on the real code, see
-known_findings.d/C03.json; a fourth origin, the `Type[..]` import, was repaired
-in /repo by c7ee31e and is now an ordinary wrapped region).  `C03_routing` is
-the partial theorem: every designed failure on every call path of any depth
-either conforms or carries the tag of one of these three origins (`Tag`).
+It is still FALSE on today's tree, but only for parsers that EXIT and only through one origin:
+get_defaults raising ArgumentError itself (`witnessDefault`, finding C03-default-config-argerr;
+`C03_routing_full_false`).  For exit_on_error=False the full statement is PROVED for all five methods
+(`C03_routing_full_raising`); for exit_on_error=True `C03_routing_exiting` allows exactly the tag
+`directArgErr`.  The two other origins of the earlier tree (internal dataclass parser: 52e5b95,
+class-help parser: 45f35d9) and the `Type[..]` import (c7ee31e) are repaired; `witnessInner` /
+`witnessHelp` conform now and are kept, on the old tables, as regression witnesses.  `C03_routing`
+is the mode-uniform form with the tag escape clause.  The RAISES side (`C03_static_*`): what can
+escape 22 leaf functions is computed from the source and proved to be designed / excused.
 -/
 import Jap.Core.ExcFlow
 import Jap.Lemmas.ExcFlow
@@ -69,7 +70,11 @@ theorem C03_known_args_and_path :
     (∀ mode ∈ Mode.all, caught tables mode (tables.handler .knownArgs) .ArgumentError = true) ∧
     (tables.handler .knownArgs).act = .callsError ∧
     (∀ mode ∈ Mode.all, caught tables mode (tables.handler .pathOwn) .PathError = true) ∧
-    (tables.handler .pathOwn).act = .callsError := by
+    (tables.handler .pathOwn).act = .callsError ∧
+    -- 2c9f0ad: reading the file sits in the same try; what the os calls and the decoding raise goes through error() too
+    (∀ mode ∈ Mode.all, ∀ c ∈ [Exc.ValueError, .UnicodeDecodeError, .OSError, .IsADirectoryError, .PermissionError],
+      caught tables mode (tables.handler .pathRead) c = true) ∧
+    (tables.handler .pathRead).act = .callsError ∧ "get_content" ∉ Jap.Gen.ExcFlow.uncovered .parsePath := by
   decide
 
 /-- no failing step of a public method sits outside its `try .. self.error(..)`, except in parse_path
@@ -110,7 +115,8 @@ init_args that is a Namespace).  They are what makes the `designed` entries of t
 `subcmdAction` true of the code. -/
 theorem C03_repaired_guards :
     ∀ g ∈ ["unknown_subcommand_name@get_subcommands", "subcommand_settings@__call__", "subcommand_settings@handle_subcommands",
-           "subcommand_settings_raises_TypeError", "init_args_namespace@adapt_classes_any"], g ∈ tables.guards := by
+           "subcommand_settings_raises_TypeError", "subcommand_settings@_check_value_key", "init_args_namespace@adapt_classes_any"],
+      g ∈ tables.guards := by
   decide
 
 /-- `_check_type` (and `_check_value_key` for plain types) wrap TypeError and ValueError into TypeError -/
@@ -154,7 +160,15 @@ theorem C03_adapter_branches :
     (tables.handler .typeImport).act = .raises .ValueError ∧
     (∀ mode ∈ Mode.all, caught tables mode (tables.handler .floatConv) .OverflowError = true) ∧
     (tables.handler .floatConv).act = .raises .ValueError ∧
-    tables.innerExitOnError = false := by
+    tables.innerExitOnError = false ∧
+    -- 52e5b95: the ArgumentError of the internal (exit_on_error=False) parser of a dataclass value becomes ValueError
+    (∀ mode ∈ Mode.all, caught tables mode (tables.handler .dataclassBranch) .ArgumentError = true) ∧
+    (tables.handler .dataclassBranch).act = .raises .ValueError ∧
+    -- 45f35d9: the parser of `--x.help=Class` inherits exit_on_error
+    tables.helpExitOnError = none ∧ (∀ eff, effOf tables eff .helpBody = eff) ∧
+    -- 9c44438: ArithmeticError (OverflowError, decimal.InvalidOperation) is among the deserializer exceptions
+    (∀ mode ∈ Mode.all, ∀ c ∈ [Exc.ArithmeticError, .OverflowError, .ZeroDivisionError],
+      caught tables mode (tables.handler .registered) c = true) := by
   decide
 
 /-! ## the routing theorem -/
@@ -203,6 +217,45 @@ theorem C03_routing (top : Bool) (mode : Mode) (m : Method) (root : Region) (hro
       (routeSig tables mode top root path s).tag ≠ .clean := by
   have h := route_ok_of_closed (C03_flight_closed mode top).1 (C03_flight_closed mode top).2 m root hroot path hpath s hs
   simp only [okSig, Bool.or_eq_true, bne_iff_ne, ne_eq] at h
+  exact h
+
+/-! ### since 52e5b95 / 45f35d9 only ONE tagged origin is left (get_defaults raising ArgumentError itself), and only for a parser that exits -/
+
+abbrev RootsAt (mode : Mode) : Prop :=
+  RootsOkTags tables mode false (cert mode false) [] = true ∧ RootsOkTags tables mode true (cert mode true) [.directArgErr] = true
+
+theorem C03_roots_yaml : RootsAt .yaml := ⟨by decide +kernel, by decide +kernel⟩
+theorem C03_roots_json : RootsAt .json := ⟨by decide +kernel, by decide +kernel⟩
+theorem C03_roots_toml : RootsAt .toml := ⟨by decide +kernel, by decide +kernel⟩
+theorem C03_roots_jsonnet : RootsAt .jsonnet := ⟨by decide +kernel, by decide +kernel⟩
+
+theorem C03_roots (mode : Mode) : RootsAt mode := by
+  cases mode
+  · exact C03_roots_yaml
+  · exact C03_roots_json
+  · exact C03_roots_toml
+  · exact C03_roots_jsonnet
+
+/-- C03_routing_full_raising.  The FULL statement for parsers with exit_on_error=False, all five methods, all loader modes: every
+designed failure on every call path of any depth reaches the caller as ArgumentError (or is absorbed, or is the status 0 of help /
+print_config) — no tag escape clause.  (False before 52e5b95 / 45f35d9: `witnessHelp` on the old tables, below.) -/
+theorem C03_routing_full_raising (mode : Mode) (m : Method) (root : Region) (hroot : root ∈ roots m)
+    (path : List Region) (hpath : chain root path = true)
+    (s : Sig) (hs : s ∈ born tables mode false (effLeaf tables false path) (leaf root path)) :
+    conforming false (routePath tables mode false root path s) = true := by
+  have h := route_ok_tags_of_closed (C03_flight_closed mode false).1 (C03_roots mode).1 m root hroot path hpath s hs
+  simp [okSigTags] at h
+  exact h
+
+/-- for a parser that exits: exit status 2 (or 0 / absorbed) unless the failure went through get_defaults' own `raise
+argument_error(..)` (finding C03-default-config-argerr) — the ONLY origin left -/
+theorem C03_routing_exiting (mode : Mode) (m : Method) (root : Region) (hroot : root ∈ roots m)
+    (path : List Region) (hpath : chain root path = true)
+    (s : Sig) (hs : s ∈ born tables mode true (effLeaf tables true path) (leaf root path)) :
+    conforming true (routePath tables mode true root path s) = true ∨
+      (routeSig tables mode true root path s).tag = .directArgErr := by
+  have h := route_ok_tags_of_closed (C03_flight_closed mode true).1 (C03_roots mode).2 m root hroot path hpath s hs
+  simp [okSigTags] at h
   exact h
 
 /-- the stage-indexed reading of `C03_routing` (the form of DESIGN §6): every class `C`
@@ -342,21 +395,24 @@ deleted: the list cannot silently grow stale) -/
 theorem C03_static_excuses_live :
     ∀ e ∈ excuses, leaves.any (fun l => l.escapes.any (fun o => excusedBy l o e)) = true := by decide +kernel
 
-/-- the open findings among the excuses are REAL escapes of the routing model (negation witnesses): an OverflowError /
-ArithmeticError born inside `RegisteredType.deserializer` passes its handler, `_check_type` and the method's handler -/
-def witnessRegisteredOverflow : Outcome :=
-  routePath tables .yaml false (.body .parseObject) [.applyActions, .checkValueKey, .checkType, .adapt, .registered] (.exc .OverflowError .clean)
+/-- the three findings that were read off this table (Decimal -> InvalidOperation, timedelta / complex / float restricted types ->
+OverflowError) are repaired (4c191c6, 9c44438): an ArithmeticError born inside `RegisteredType.deserializer` is now one of the
+deserializer exceptions and reaches the caller as a parse error; on the tables of the tree before, it escaped -/
+def witnessRegisteredOverflow (T : Tables) : Outcome :=
+  routePath T .yaml false (.body .parseObject) [.applyActions, .checkValueKey, .checkType, .adapt, .registered] (.exc .OverflowError .clean)
 
-def witnessDecimal : Outcome :=
-  routePath tables .yaml true (.body .parseArgs) [.knownArgs, .typehintAction, .checkType, .adapt, .registered] (.exc .ArithmeticError .clean)
+def witnessDecimal (T : Tables) : Outcome :=
+  routePath T .yaml true (.body .parseArgs) [.knownArgs, .typehintAction, .checkType, .adapt, .registered] (.exc .ArithmeticError .clean)
 
-theorem C03_static_open_findings_escape :
-    witnessRegisteredOverflow = .escapes .OverflowError ∧ witnessDecimal = .escapes .ArithmeticError ∧
-    (∀ mode ∈ Mode.all, designedCovers tables mode .registered .OverflowError = false ∧
-      designedCovers tables mode .registered .ArithmeticError = false) ∧
-    -- inside Optional / Union the same failure is absorbed (`except Exception` per member)
-    routePath tables .yaml false (.body .parseObject) [.applyActions, .checkValueKey, .checkType, .adapt, .unionTry, .adapt, .registered]
-      (.exc .OverflowError .clean) = .argErr := by decide +kernel
+def tablesBefore9c44438 : Tables := { tables with deserExc := [.ValueError, .TypeError, .AttributeError] }
+
+theorem C03_static_repaired_findings :
+    witnessRegisteredOverflow tables = .argErr ∧ witnessDecimal tables = .exit 2 ∧
+    (∀ mode ∈ Mode.all, designedCovers tables mode .registered .OverflowError = true ∧
+      designedCovers tables mode .registered .ArithmeticError = true) ∧
+    witnessRegisteredOverflow tablesBefore9c44438 = .escapes .OverflowError ∧
+    witnessDecimal tablesBefore9c44438 = .escapes .ArithmeticError ∧
+    (∀ mode ∈ Mode.all, designedCovers tablesBefore9c44438 mode .registered .OverflowError = false) := by decide +kernel
 
 -- non-vacuity: the table is not empty, covered origins exist and the composed theorem applies to them
 example : leaves.length ≥ 20 ∧ (leaves.map (fun l => l.escapes.length)).sum ≥ 80 := by decide +kernel
@@ -365,10 +421,16 @@ example : ∃ l ∈ leaves, ∃ o ∈ l.escapes, l.name = intLeaf ∧ o.cls = .V
 example : routePath tables .yaml true (.body .parseString) [.lcpm, .applyActions, .checkValueKey, .checkType, .adapt, .registered]
     (.exc .ValueError .clean) = .exit 2 := by decide
 -- sensitivity: the obligation fails when a guard goes (seed C03-5B: the integrality test moved behind the conversion) ...
-example : originOk tables excuses ⟨intLeaf, .registered, Mode.all, [.ValueError, .TypeError, .AttributeError], []⟩
+-- (on the tables and excuses of the tree before 4c191c6 / 9c44438; today validation_fn converts inside `except OverflowError`)
+example : originOk tablesBefore9c44438 excusesBefore ⟨intLeaf, .registered, Mode.all, [.ValueError, .TypeError, .AttributeError], []⟩
     ⟨.OverflowError, "int(v)", ["passed: isinstance(v, bool)", integralGuard]⟩ = true := by decide +kernel
-example : originOk tables excuses ⟨intLeaf, .registered, Mode.all, [.ValueError, .TypeError, .AttributeError], []⟩
+example : originOk tablesBefore9c44438 excusesBefore ⟨intLeaf, .registered, Mode.all, [.ValueError, .TypeError, .AttributeError], []⟩
     ⟨.OverflowError, "int(v)", ["passed: isinstance(v, bool)"]⟩ = false := by decide +kernel
+-- ... when a handler inside a leaf goes (the `except OverflowError` of validation_fn, the `except ValueError` of json_load) ...
+example : originOk tables excuses ⟨"_loaders_dumpers.json_load", .loadValue, [.json], [], []⟩ ⟨.ValueError, "json.loads(value)", []⟩ = false := by
+  decide +kernel
+example : originOk tables excuses ⟨"_loaders_dumpers.json_load", .loadValue, [.json], [], []⟩
+    ⟨.ValueError, "json.loads(value)", ["in: isinstance(ex, json.JSONDecodeError)"]⟩ = true := by decide +kernel
 -- ... when a conversion leaves its try block (seed C03-A: int() of load_basic outside the `except ValueError`) ...
 example : originOk tables excuses ⟨"_loaders_dumpers.load_basic", .loadValue, Mode.all, [], []⟩ ⟨.ValueError, "int(value)", []⟩ = false := by
   decide +kernel
@@ -409,9 +471,20 @@ example : routePath tables .yaml true (.body .parseArgs)
 example : ∀ top, routePath tables .yaml top (.body .parseArgs) [.knownArgs, .helpAction] (.exit 0 .clean) = .exit 0 := by decide
 example : ∀ top, routePath tables .yaml top (.body .parseArgs) [.common, .printConfig] (.exit 0 .clean) = .exit 0 := by decide
 -- the three witnesses, individually
-example : witnessInner = .escapes .ArgumentError := by decide
-example : witnessHelp = .exit 2 := by decide
+example : witnessInner = .exit 2 := by decide            -- repaired by 52e5b95 (was: escapes ArgumentError)
+example : witnessHelp = .argErr := by decide              -- repaired by 45f35d9 (was: exit 2 under exit_on_error=False)
 example : witnessDefault = .escapes .ArgumentError := by decide
+-- regression witnesses on the tables of the tree before those repairs
+example : routePath { tables with handler := fun v => if v = .dataclassBranch then ⟨[], .same⟩ else tables.handler v } .yaml true (.body .parseObject)
+    [.applyActions, .checkValueKey, .checkType, .adapt, .dataclass, .innerBody .parseObject, .common, .validate]
+    (.exc .NSKeyError .clean) = .escapes .ArgumentError := by decide
+example : routePath { tables with helpExitOnError := some true } .yaml false (.body .parseArgs) [.knownArgs, .helpClassPath, .helpBody, .leftover]
+    (.exit 2 .clean) = .exit 2 := by decide
+-- 2c9f0ad: a config file that is not UTF-8 / cannot be read, a NUL byte in its name: through error() now, escaped before
+example : routePath tables .yaml true (.body .parsePath) [.pathContent] (.exc .UnicodeDecodeError .clean) = .exit 2 := by decide
+example : routePath tables .yaml false (.body .parsePath) [.pathCtor] (.exc .ValueError .clean) = .argErr := by decide
+example : routePath { tables with handler := fun v => if v = .pathRead then ⟨[], .same⟩ else tables.handler v } .yaml true (.body .parsePath)
+    [.pathContent] (.exc .UnicodeDecodeError .clean) = .escapes .UnicodeDecodeError := by decide
 -- F17n / F17s: an unknown sub-command name and a non-mapping sub-command section are designed failures now
 example : routePath tables .yaml false (.body .parseObject) [.common, .subcommands] (.exc .NSKeyError .clean) = .argErr := by decide
 example : routePath tables .yaml true (.body .parseString) [.common, .subcommands] (.exc .TypeError .clean) = .exit 2 := by decide
